@@ -358,4 +358,15 @@ def _check_allyear_panel():
                 if out[6] != do or not out[7]: return "zone with footer %r: lookup(%d) reports offset %d, is_dst %d; permanent DST gives offset %d" % (footer.decode(), t, out[6], out[7], do)
         finally:
             lib().tzr_free(ctypes.c_void_p(h))
+    # standard-time-only footers: accepted iff the last recorded transition already has that type
+    for footer, last_off, last_dst, last_name, accept in ((b"EST5", -18000, 0, b"EST", True), (b"EST5", -14400, 0, b"EST", False), (b"EST5", -18000, 1, b"EST", False),
+                                                         (b"EST5", -18000, 0, b"EDT", False)):
+        chars = b"LMT\0" + last_name + b"\0"
+        z = {"N": 2, "T": 2, "off": [-17762, last_off], "dst": [0, last_dst], "abbr": [0, 4], "default": 0, "unix": [-(1 << 40), cal.sec(1990, 6, 1, 0, 0, 0)], "type": [0, 1], "chars": chars}
+        img = tzif(z, footer)
+        h = lib().tzr_load(img, ctypes.c_size_t(len(img)))
+        got = bool(h)
+        if h: lib().tzr_free(ctypes.c_void_p(h))
+        if got != accept:
+            return "a zone whose last transition is (%d, dst=%d, %s) with the standard-time-only footer %r is %s by Load" % (last_off, last_dst, last_name.decode(), footer.decode(), "accepted" if got else "rejected")
     return None
